@@ -168,7 +168,7 @@ def submit_guard(ctx):
     t = [n for n in nodes_of_type(f, ast.If) if unparse(n.test) == "self._flags.broken is not None"]
     put = [c for c in calls_in(f) if call_name(c) == "self._work_ids.put"]
     ctx.need(put, "submit no longer enqueues a work id")
-    ok = bool(t) and isinstance(t[0].body[0], ast.Raise) and unparse(t[0].body[0].exc) == "self._flags.broken"
+    ok = bool(t) and any(isinstance(s_, ast.Raise) and unparse(s_.exc) == "self._flags.broken" for s_ in t[0].body) and isinstance(t[0].body[-1], ast.Raise)
     ctx.check(ok, t[0] if t else f, "submit on a broken executor raises the stored worker-termination error", "submit does not raise the stored error on a broken executor",
               key=None if t else PE + "::ProcessPoolExecutor.submit::broken test")
     if t:
@@ -176,7 +176,7 @@ def submit_guard(ctx):
         ws = [w for w in ancestors(t[0]) if isinstance(w, ast.With)]
         ctx.check(bool(ws) and any(unparse(i.context_expr) == "self._flags.shutdown_lock" for i in ws[0].items) and in_block(put[0], ws[0].body), t[0], "test and enqueue are under the shutdown lock (atomic with flag_as_broken)")
     sd = [n for n in nodes_of_type(f, ast.If) if unparse(n.test) == "self._flags.shutdown"]
-    ctx.check(bool(sd) and isinstance(sd[0].body[0], ast.Raise), sd[0] if sd else f, "submit after shutdown raises")
+    ctx.check(bool(sd) and isinstance(sd[0].body[-1], ast.Raise), sd[0] if sd else f, "submit after shutdown raises")
     rets = nodes_of_type(f, ast.Return)
     pw = [a for a in nodes_of_type(f, ast.Assign) if unparse(a.targets[0]) == "self._pending_work_items[self._queue_count]"]
     ctx.check(bool(pw) and g.every_path_to(g.nodes_of_all(put), g.nodes_of(pw[0])), pw[0] if pw else f, "the work item is recorded as pending before its id is queued (so terminate_broken can fail it)")
